@@ -98,7 +98,76 @@ pub fn lexlim_case(ctx: &mut Ctx, src: &str) {
     }
 }
 
-pub const CLASS_ALPHABET: [&str; 24] = ["{", "!", ",", "a", "e", "u", "E", "_", "0", "1", "\"", "\\", "#", ".", "-", "+", " ", "\n", "\r", "é", "\u{feff}", "f", "D", "\u{1}"];
+/// Characters that matter one by one (audit G2): every ASCII code, U+0080..U+017F (every ASCII character shifted by
+/// 0x80 and by 0x100 — what an unguarded 256-entry table lookup or a `as u8` cast would alias to), and scalar values
+/// at the UTF-8 length boundaries, look-alikes of digits/letters/punctuators, Unicode spaces and separators.
+pub fn sweep_chars() -> Vec<char> {
+    let mut v: Vec<char> = (0u32..=0x17F).filter_map(char::from_u32).collect();
+    for cp in [0x391u32, 0x660, 0x7FF, 0x800, 0x1680, 0x2003, 0x200B, 0x2028, 0x2029, 0x212A, 0x3000, 0xD7FF, 0xE000, 0xFEFF, 0xFF01, 0xFF10, 0xFF21, 0xFF3F,
+        0xFF41, 0xFF5B, 0xFFFD, 0xFFFE, 0xFFFF, 0x10000, 0x1F600, 0x10FFFF] { v.push(char::from_u32(cp).unwrap()); }
+    v
+}
+
+/// (prefix, suffix) contexts: one swept character is placed between them, so that it meets every lexer state
+pub const SWEEP_CONTEXTS: [(&str, &str); 66] = [
+    ("", ""), ("", "a"), ("", "1"), ("", "\""), ("", "."), ("a", ""), ("a", "a"), ("_", ""), ("A1", ""), (" ", ""), ("\t", ""), ("\n", ""), ("\r", ""), (",", ""), ("\u{feff}", ""),
+    ("0", ""), ("-", ""), ("-0", ""), ("1", ""), ("19", ""), ("1", "1"), ("1.", ""), ("0.", ""), ("1.", "5"), ("1.5", ""), ("1.5", "5"), ("1e", ""), ("1E", ""), ("1e", "5"), ("1e+", ""), ("1e-", ""), ("1e+", "5"),
+    ("1e5", ""), ("1.5e5", ""), ("0e", ""), ("0.0e-0", ""),
+    (".", ""), ("..", ""), ("...", ""), (".", "."),
+    ("\"", "\""), ("\"a", "b\""), ("\"\\", "\""), ("\"\\u", "000\""), ("\"\\u0", "00\""), ("\"\\u00", "0\""), ("\"\\u000", "\""), ("\"\\u0000", "\""), ("\"", ""), ("\"\\", ""), ("\"\"", ""),
+    ("\"\"\"", "\"\"\""), ("\"\"\"\\", "\"\"\""), ("\"\"\"\\\"\"\"", "\"\"\""), ("\"\"\"\"", "\"\"\""), ("\"\"\"\"\"", "\"\"\""), ("\"\"\"", ""), ("\"\"\"\"\"\"", ""), ("\"\"\"a\"\"", "\"\"\""),
+    ("#", ""), ("#", "\na"), ("#a", "b\n"), ("{", "}"), ("$", ""), ("@", "("), ("a:", "!"),
+];
+
+/// Systematic number-like texts: sign × integer part × fraction × exponent × what follows (audit G2)
+pub fn number_family(suffixes: &[&str]) -> Vec<String> {
+    let mut out = vec![];
+    for sign in ["", "-", "+", "--"] { for int in ["", "0", "1", "9", "10", "12", "01", "00", "007"] { for frac in ["", ".", ".0", ".5", ".05", ".50", "..5", ".5.5"] {
+        for exp in ["", "e", "E", "e5", "E5", "e+", "E-", "e+5", "E-5", "e-05", "e+-5", "e5e5", "e5.5", "e1234567890"] { for suf in suffixes {
+            out.push(format!("{sign}{int}{frac}{exp}{suf}"));
+    } } } } }
+    out
+}
+
+fn audit_families(ctx: &mut Ctx) {
+    // 1. every swept character in every context
+    let chars = sweep_chars();
+    let mut n = 0u64;
+    for (pre, suf) in SWEEP_CONTEXTS { for &c in &chars { lex_case(ctx, &format!("{pre}{c}{suf}")); n += 1; } }
+    ctx.stat_n("sweep_char_in_context", n);
+    // 2. every ordered pair of ASCII characters: bare, and as the content of a quoted string
+    let mut n = 0u64;
+    for a in 0u8..128 { for b in 0u8..128 {
+        let (a, b) = (a as char, b as char);
+        lex_case(ctx, &format!("{a}{b}")); lex_case(ctx, &format!("\"{a}{b}\"")); n += 2;
+    } }
+    ctx.stat_n("ascii_pairs", n);
+    // 3. numbers
+    let nums = number_family(&["", " ", "a", "e", "E", "_", ".", "..", "...", "0", "-", "+", "é", "\"", "{", ",", "\n", "x1", "e5", "\u{feff}"]);
+    ctx.stat_n("number_family", nums.len() as u64);
+    for s in &nums { lex_case(ctx, s); }
+    // 4. block strings from atoms (escaped triple quote, shorter look-alikes, backslashes, quotes) × what follows the closing quotes
+    let mut v = vec![];
+    for_all_strings(&["\\\"\"\"", "\\\"\"", "\\\"", "\\", "\\\\", "\"", "\"\"", "x", "\n", "é", " "], if ctx.thorough { 5 } else { 4 }, |s| v.push(s.to_string()));
+    ctx.stat_n("block_string_atom_family", (v.len() * 6) as u64);
+    for body in &v { for tail in ["", "\"", "\"\"", "\"\"\"", " x", "\\"] { lex_case(ctx, &format!("\"\"\"{body}\"\"\"{tail}")); } }
+    // 5. quoted strings from atoms: every escape, broken escapes, raw line terminators, multi-byte text
+    let mut v = vec![];
+    for_all_strings(&["\\\"", "\\\\", "\\/", "\\b", "\\f", "\\n", "\\r", "\\t", "\\u0041", "\\u00e9", "\\uD800", "\\u12", "\\u", "\\x", "\\", "\"", "a", "é", "😀", "\n", "\r", "\t", " "],
+        if ctx.thorough { 4 } else { 3 }, |s| v.push(s.to_string()));
+    ctx.stat_n("quoted_string_atom_family", (v.len() * 2) as u64);
+    for body in &v { lex_case(ctx, &format!("\"{body}\"")); lex_case(ctx, &format!("\"{body}\"a")); }
+    // 6. unicode escapes behind multi-byte text (byte offsets ≠ char offsets), mixed case
+    let mut n = 0u64;
+    for cp in (0..=0xFFFFu32).filter(|cp| cp % 0x101 == 0 || [0x7F, 0x80, 0x7FF, 0x800, 0xD7FF, 0xD800, 0xDBFF, 0xDC00, 0xDFFF, 0xE000, 0xFFFE, 0xFFFF, 0xABCD, 0xFEDC].contains(cp)) {
+        let up = format!("{cp:04X}"); let lo = format!("{cp:04x}");
+        let mixed: String = up.chars().enumerate().map(|(i, c)| if i % 2 == 0 { c.to_ascii_lowercase() } else { c }).collect();
+        for h in [&up, &lo, &mixed] { lex_case(ctx, &format!("\"é\\u{h}😀\"")); lex_case(ctx, &format!("\"😀\\u{h}\\u{h}\" é")); n += 2; }
+    }
+    ctx.stat_n("unicode_escape_multibyte_context", n);
+}
+
+pub const CLASS_ALPHABET: [&str; 24] =["{", "!", ",", "a", "e", "u", "E", "_", "0", "1", "\"", "\\", "#", ".", "-", "+", " ", "\n", "\r", "é", "\u{feff}", "f", "D", "\u{1}"];
 
 pub fn run(ctx: &mut Ctx) {
     // corpus first
@@ -141,6 +210,7 @@ pub fn run(ctx: &mut Ctx) {
         lex_case(ctx, &format!("\"\\u{{{}}}\"", v)); esc += 1;
     }
     ctx.stat_n("unicode_escape_cases", esc);
+    audit_families(ctx);
     // token limits on all short strings
     let mut short = vec![];
     for_all_strings(&CLASS_ALPHABET, if ctx.thorough { 3 } else { 2 }, |s| short.push(s.to_string()));
